@@ -534,7 +534,32 @@ def check_dimension_index_spaces(prog, ctx, base):
                       "inside the walk over the dimension subset, per-dimension sequences are indexed by the dimension, not by the position",
                       "`%s` indexes a per-dimension sequence with `%s`, the POSITION in the filtered dimension list, instead of the dimension "
                       "stored at that position: wrong as soon as a filtered-out dimension precedes it" % (src(bad[0]) if bad else "", pos))
-    ctx.note("C12.D10", "Function::dimension-subsets", "sparseSpACE/Function.py", "%d walks over filtered dimension lists analysed" % n)
+        # cardinalities: a sign factor (-1) ** E standing next to a product over the subset S (one factor per integrated dimension) counts
+        # the dimensions of S -- not all dimensions, not another subset
+        for st in walk_local(fi.node):
+            if not isinstance(st, ast.Assign):
+                continue
+            pows = [x for x in ast.walk(st.value) if isinstance(x, ast.BinOp) and isinstance(x.op, ast.Pow)
+                    and ((isinstance(x.left, ast.UnaryOp) and isinstance(x.left.op, ast.USub) and isinstance(x.left.operand, ast.Constant) and x.left.operand.value == 1)
+                         or (isinstance(x.left, ast.Constant) and x.left.value == -1))]
+            prods = [x for x in ast.walk(st.value) if isinstance(x, ast.Call) and isinstance(x.func, ast.Attribute) and x.func.attr == "prod" and x.args
+                     and isinstance(x.args[0], (ast.ListComp, ast.GeneratorExp)) and isinstance(x.args[0].generators[0].iter, ast.Name)
+                     and x.args[0].generators[0].iter.id in subsets]
+            if not pows or not prods:
+                continue
+            S = prods[0].args[0].generators[0].iter.id
+            for pw in pows:
+                n += 1
+                counted = {y.args[0].id for y in ast.walk(pw.right) if isinstance(y, ast.Call) and isinstance(y.func, ast.Name) and y.func.id == "len"
+                           and y.args and isinstance(y.args[0], ast.Name)}
+                others = counted - {S}
+                whole = [y for y in ast.walk(pw.right) if isinstance(y, ast.Attribute) and y.attr == "dim"]
+                ok = S in counted and not others and not whole
+                ctx.check(ok, "C12.D10", R.key_of(fi, "sign-counts-the-subset#%d" % n), fi.loc(pw),
+                          "the sign exponent `%s` counts the dimensions of `%s`, the subset the accompanying product runs over" % (src(pw.right)[:50], S),
+                          "the sign factor `%s` stands next to a product over `%s` (one factor per integrated dimension) but its exponent counts %s: wrong as "
+                          "soon as the subset is smaller than that" % (src(pw)[:60], S, "all dimensions" if whole else (sorted(others) or "nothing of it")))
+    ctx.note("C12.D10", "Function::dimension-subsets", "sparseSpACE/Function.py", "%d walks over filtered dimension lists / subset cardinalities analysed" % n)
 
 
 def check_vectorised_buffers(prog, ctx, base):
